@@ -214,7 +214,8 @@ class ModelExport:
                 )
 
             case LoadFunc() as op:
-                signature = op.instantiation.to_model()
+                func_type = op.instantiation.to_model()
+                signature = op.outer_signature().to_model()
                 func_args = cast(
                     list[model.Term], [type.to_model() for type in op.type_args]
                 )
@@ -228,7 +229,7 @@ class ModelExport:
 
                 return model.Node(
                     operation=model.CustomOp(
-                        model.Apply("core.load_const", [signature, func])
+                        model.Apply("core.load_const", [func_type, func])
                     ),
                     signature=signature,
                     inputs=inputs,
